@@ -36,16 +36,18 @@ structure MemSizes.Bounded (ms : MemSizes) : Prop where
   objInfo : ms.objInfo ≤ 16
   rawThreadInfo : ms.rawThreadInfo ≤ 4 * 64
   threadInfo : ms.threadInfo ≤ 4 * 64
+  string : ms.string ≤ 8 * 4
+  moduleCrashpad : ms.moduleCrashpad ≤ 10 * 12
 
 theorem MemSizes.bounded_iff (ms : MemSizes) : ms.bounded = true ↔ ms.Bounded := by
   constructor
   · intro h
     simp only [MemSizes.bounded, Bool.and_eq_true, decide_eq_true_eq] at h
-    obtain ⟨⟨⟨⟨⟨⟨⟨⟨⟨⟨⟨⟨⟨⟨⟨⟨h1, h2⟩, h3⟩, h4⟩, h5⟩, h6⟩, h7⟩, h8⟩, h9⟩, h10⟩, h11⟩, h12⟩, h13⟩, h14⟩, h15⟩, h16⟩, h17⟩ := h
-    exact ⟨h1, h2, h3, h4, h5, h6, h7, h8, h9, h10, h11, h12, h13, h14, h15, h16, h17⟩
+    obtain ⟨⟨⟨⟨⟨⟨⟨⟨⟨⟨⟨⟨⟨⟨⟨⟨⟨⟨h1, h2⟩, h3⟩, h4⟩, h5⟩, h6⟩, h7⟩, h8⟩, h9⟩, h10⟩, h11⟩, h12⟩, h13⟩, h14⟩, h15⟩, h16⟩, h17⟩, h18⟩, h19⟩ := h
+    exact ⟨h1, h2, h3, h4, h5, h6, h7, h8, h9, h10, h11, h12, h13, h14, h15, h16, h17, h18, h19⟩
   · intro h
     simp only [MemSizes.bounded, Bool.and_eq_true, decide_eq_true_eq]
-    exact ⟨⟨⟨⟨⟨⟨⟨⟨⟨⟨⟨⟨⟨⟨⟨⟨h.1, h.2⟩, h.3⟩, h.4⟩, h.5⟩, h.6⟩, h.7⟩, h.8⟩, h.9⟩, h.10⟩, h.11⟩, h.12⟩, h.13⟩, h.14⟩, h.15⟩, h.16⟩, h.17⟩
+    exact ⟨⟨⟨⟨⟨⟨⟨⟨⟨⟨⟨⟨⟨⟨⟨⟨⟨⟨h.1, h.2⟩, h.3⟩, h.4⟩, h.5⟩, h.6⟩, h.7⟩, h.8⟩, h.9⟩, h.10⟩, h.11⟩, h.12⟩, h.13⟩, h.14⟩, h.15⟩, h.16⟩, h.17⟩, h.18⟩, h.19⟩
 
 theorem default_bounded : MemSizes.default.Bounded := (MemSizes.bounded_iff _).mp (by decide)
 
